@@ -12,3 +12,23 @@ pub fn tour_new(nodes: Vec<NodeIdx>, network: Arc<Network>) -> Result<Tour, Stri
 pub fn tour_new_dummy(path: Path, network: Arc<Network>) -> Result<Tour, String> {
     Tour::verif_new_dummy(path, network)
 }
+
+/// TrainFormation::replace / remove / add_at_tail (crate-private) on a formation of the vehicles 0..n; the new vehicle is 99
+pub fn formation_op(n: usize, what: &str, i: usize, network: Arc<Network>) -> Result<Vec<String>, String> {
+    use crate::train_formation::TrainFormation;
+    use crate::vehicle::Vehicle;
+    use model::base_types::VehicleIdx;
+    let vt = network.vehicle_types().iter().next().unwrap();
+    let mk = |k: usize| Vehicle::new(VehicleIdx::vehicle_from(k as u16), vt, network.vehicle_types());
+    let mut tf = TrainFormation::empty();
+    for k in 0..n {
+        tf = tf.add_at_tail(mk(k));
+    }
+    let r = match what {
+        "add_at_tail" => Ok(tf.add_at_tail(mk(99))),
+        "remove" => tf.remove(VehicleIdx::vehicle_from(i as u16)),
+        "replace" => tf.replace(VehicleIdx::vehicle_from(i as u16), mk(99)),
+        _ => Err("unknown formation op".to_string()),
+    };
+    r.map(|t| t.ids().iter().map(|v| v.to_string()).collect())
+}
